@@ -27,6 +27,9 @@ def shards(pid, tier):
     return sp
 
 
+INPUT_FORM_NAMES = {'w-2', '1098', '1099-int', '1099-div', '1099-g', '1099-r', '1099-oid'}
+
+
 def traced(p, **kw):
     with trace.Tracer(ceiling=CEILING) as t:
         out = scen.solve_persona(p, tracer=t, **kw)
@@ -151,6 +154,20 @@ def run_case(pid, p, rng, res, spec, tier):
                 res.count('runs_with_reattempts')
             for s, m in v:
                 viol(res, pid, year, s, m, p, f'schedule:{ss}', spec)
+        # every form the return pulled in by reference, requested up front: all their lines are outstanding
+        # from the start, so a line that sums "whatever is there" instead of demanding its operands shows
+        if out.exc is None:
+            pulled = sorted(set(k.split('.')[0] for k in tv.stored) - set(p.forms()))
+            pulled = [f for f in pulled if f.split(':')[0] not in INPUT_FORM_NAMES]
+            if pulled:
+                for ss in (None, 5):
+                    o6, tv6, _ = traced(fresh(), schedule_seed=ss, forms=list(p.forms()) + pulled)
+                    res.evaluations += 1
+                    res.count('runs_with_referenced_forms_requested')
+                    v, n = oracles.c03(o6, tv6)
+                    res.count('lines_reevaluated', n)
+                    for s, m in v:
+                        viol(res, pid, year, s, m, p, f'referenced-forms-requested:{ss}', spec)
         # history: solve, change some inputs through the store's public mapping interface, solve again on the SAME store
         if out.exc is None:
             changed = {}
@@ -184,6 +201,33 @@ def run_case(pid, p, rng, res, spec, tier):
                 res.count('lines_reevaluated', n)
                 for s_, m in v:
                     viol(res, pid, year, s_, m, p, 'solve-change-inputs-solve', spec)
+        # history across tax years: the SAME InputStore handed to a solver for another year (whatever the
+        # first solver left in the store - input definitions, parsed values - must not leak into the second)
+        if out.exc is None:
+            y2 = {2021: 2022, 2022: 2023, 2023: 2021}[year]
+            for request in (['nc_d-400'], ['1040_s1', '1040']):
+                classes2 = hx.catalogue(y2)
+                with trace.Tracer(ceiling=CEILING) as t7:
+                    s7 = hx.solver.Solver(out.store, classes2, prompt=None)
+                    o7 = drive.Outcome()
+                    o7.solver, o7.store, o7.cp, o7.classes = s7, out.store, out.cp, classes2
+                    o7.request, o7.field_names, o7.prompts = request, [], []
+                    o7.initial_inputs = drive.final_inputs(out.cp)
+                    try:
+                        o7.ret = s7.solve(list(request))
+                        o7.solution, o7.unimplemented = s7.solution(), list(s7.unimplemented_fields())
+                        o7.unmet_inputs, o7.unmet_fields = s7.unmet_input_dependencies(), s7.unmet_field_dependencies()
+                    except BaseException as e:  # noqa
+                        o7.exc = e
+                    o7.final_inputs = drive.final_inputs(out.cp)
+                tv7 = trace.TraceView(t7.events)
+                res.evaluations += 1
+                res.count('cross_year_histories')
+                if o7.exc is None:
+                    v, n = oracles.c03(o7, tv7)
+                    res.count('lines_reevaluated', n)
+                    for s_, m in v:
+                        viol(res, pid, year, s_, m, p, f'same-store-then-{y2}:{request[0]}', spec)
         k = rng.randint(0, max(0, len(tv.prompts) - 1))
         o3, tv3, _ = traced(fresh(), refuse_from=k)
         res.evaluations += 1
